@@ -273,6 +273,12 @@ theorem semi_pool_exhaustion (c : SemiCfg) (epoch : Nat) (v1 v2 : List Nat) (res
   · rw [hfu]
     exact valsOf_prefix _ false steps hvu hpu
 
+/-- non-vacuity: the recorded tape of the example above consists of permutations (after the two seed draws) -/
+example : ∀ p, p ∈ [[3, 0, 1, 2], [1, 0], [0, 1]] → p.Perm (List.range p.length) := by
+  intro p hp
+  simp at hp
+  rcases hp with rfl | rfl | rfl <;> decide
+
 /-- **Equally long streams per rank**: `len` has no rank argument and every rank's stream has `len` entries. -/
 theorem semi_len_rank_independent (c : SemiCfg) (r epoch : Nat) (tape : Tape) (out : List Nat)
     (h : (semiIter { c with rankArg := some r } epoch tape).out = .ok out) :
